@@ -10,6 +10,7 @@ INVARIANT LawCharStr
 INVARIANT LawRdata
 INVARIANT LawRecord
 INVARIANT LawRecordHash
+INVARIANT LawRecRep
 INVARIANT LawTransitive
 INVARIANT LawCarrier
 INVARIANT LawRelCarrier
@@ -21,6 +22,7 @@ INVARIANT EmitName
 INVARIANT EmitCharStr
 INVARIANT EmitRdata
 INVARIANT EmitRecord
+INVARIANT EmitXRecord
 INVARIANT EmitCarrier
 INVARIANT EmitRelCarrier
 INVARIANT EmitCarrierPair
